@@ -25,6 +25,7 @@ VERIF = os.path.dirname(os.path.dirname(os.path.abspath(__file__)))
 sys.path.insert(0, VERIF)
 REPO = os.environ.get('DROOP_REPO', '/repo')
 PY = '/venv/bin/python'
+OPS2 = '--ops2' in sys.argv      # second operator set: selector swaps, V0/V1, dropped not / operands, adjacent statement swaps, E.quota/E.surplus
 
 FLIP = {ast.Lt: ast.LtE, ast.LtE: ast.Lt, ast.Gt: ast.GtE, ast.GtE: ast.Gt, ast.Eq: ast.NotEq, ast.NotEq: ast.Eq,
         ast.In: ast.NotIn, ast.NotIn: ast.In, ast.Is: ast.IsNot, ast.IsNot: ast.Is}
@@ -104,6 +105,35 @@ def gen_mutants(rel):
                           ('binop', ast.Sub if isinstance(n.op, ast.Add) else ast.Add)))
         elif isinstance(n, ast.If) and n.orelse == [] and not isinstance(parents.get(n), ast.If):
             plans.append(('if-always', ln, i, ('iftrue',)))
+    if OPS2:
+        plans = []
+        SEL = {'hopeful': ['pending', 'elected'], 'pending': ['hopeful', 'elected'], 'elected': ['hopeful', 'pending'], 'eligible': ['hopeful']}
+        for i, n in enumerate(nodes):
+            ch = chain(n)
+            if in_docstring_or_help(n, ch):
+                continue
+            ln = getattr(n, 'lineno', 0)
+            if isinstance(n, ast.Attribute) and n.attr in SEL and isinstance(parents.get(n), ast.Call) and parents[n].func is n:
+                for alt in SEL[n.attr]:
+                    plans.append(('selector %s->%s' % (n.attr, alt), ln, i, ('attr', alt)))
+            elif isinstance(n, ast.Name) and n.id in ('V0', 'V1') and isinstance(n.ctx, ast.Load):
+                plans.append(('%s->%s' % (n.id, 'V1' if n.id == 'V0' else 'V0'), ln, i, ('name', 'V1' if n.id == 'V0' else 'V0')))
+            elif isinstance(n, ast.UnaryOp) and isinstance(n.op, ast.Not):
+                plans.append(('drop-not', ln, i, ('dropnot',)))
+            elif isinstance(n, ast.BoolOp) and len(n.values) >= 2:
+                for k in range(len(n.values)):
+                    plans.append(('drop-operand %d of %s' % (k, type(n.op).__name__), ln, i, ('dropoperand', k)))
+            elif isinstance(n, (ast.FunctionDef, ast.For, ast.While, ast.If, ast.With, ast.Try)):
+                for fld in ('body', 'orelse'):
+                    b = getattr(n, fld, None)
+                    if isinstance(b, list):
+                        for k in range(len(b) - 1):
+                            if isinstance(b[k], (ast.Assign, ast.AugAssign, ast.Expr)) and isinstance(b[k + 1], (ast.Assign, ast.AugAssign, ast.Expr)) \
+                                    and not (isinstance(b[k], ast.Expr) and isinstance(b[k].value, ast.Constant)):
+                                plans.append(('swap-stmts %s[%d,%d]' % (fld, k, k + 1), getattr(b[k], 'lineno', ln), i, ('swap', fld, k)))
+            elif isinstance(n, ast.Attribute) and n.attr in ('vote', 'weight', 'kf', 'quota', 'surplus') and isinstance(n.ctx, ast.Load) \
+                    and isinstance(n.value, ast.Name) and n.value.id in ('E',) and n.attr in ('quota', 'surplus'):
+                plans.append(('E.%s->E.%s' % (n.attr, 'surplus' if n.attr == 'quota' else 'quota'), ln, i, ('attr', 'surplus' if n.attr == 'quota' else 'quota')))
     for desc, ln, i, plan in plans:
         t2 = ast.parse(src)
         ns = list(ast.walk(t2))
@@ -131,6 +161,27 @@ def gen_mutants(rel):
                 n.op = plan[1]()
             elif plan[0] == 'iftrue':
                 n.test = ast.copy_location(ast.Constant(value=True), n.test)
+            elif plan[0] == 'attr':
+                n.attr = plan[1]
+            elif plan[0] == 'dropnot':
+                par = pm[n]
+                for fld, val in ast.iter_fields(par):
+                    if val is n:
+                        setattr(par, fld, n.operand)
+                    elif isinstance(val, list) and any(v is n for v in val):
+                        val[[k for k, v in enumerate(val) if v is n][0]] = n.operand
+            elif plan[0] == 'dropoperand':
+                del n.values[plan[1]]
+                if len(n.values) == 1:
+                    par = pm[n]
+                    for fld, val in ast.iter_fields(par):
+                        if val is n:
+                            setattr(par, fld, n.values[0])
+                        elif isinstance(val, list) and any(v is n for v in val):
+                            val[[k for k, v in enumerate(val) if v is n][0]] = n.values[0]
+            elif plan[0] == 'swap':
+                b = getattr(n, plan[1])
+                b[plan[2]], b[plan[2] + 1] = b[plan[2] + 1], b[plan[2]]
             new = ast.unparse(t2)
             compile(new, rel, 'exec')
         except Exception:
